@@ -81,7 +81,7 @@ class AnnotatedTypesCheck(CustomCheck):
             original_subval = subval
             if isinstance(subval, AnnotatedValue):
                 if any(
-                    ext == self or self.is_compatible_metadata(ext)
+                    ext == self or self._is_compatible_metadata_or_false(ext)
                     for ext in subval.get_custom_check_of_type(AnnotatedTypesCheck)
                 ):
                     continue
@@ -109,6 +109,13 @@ class AnnotatedTypesCheck(CustomCheck):
 
     def predicate(self, value: Any) -> bool:
         raise NotImplementedError
+
+    def _is_compatible_metadata_or_false(self, metadata: "AnnotatedTypesCheck") -> bool:
+        try:
+            return self.is_compatible_metadata(metadata)
+        except Exception:
+            # e.g. bounds of types that cannot be compared: Gt(3) against Gt("x")
+            return False
 
     def is_compatible_metadata(self, metadata: "AnnotatedTypesCheck") -> bool:
         """Override this to allow metadata that is not exactly the same as the
